@@ -34,6 +34,24 @@ CHECKS = {
     "C06": dict(cat="proof", tech="Coq: naturality of the semantics (any program) + equivariance by uniqueness, C16_direct, C17; tied by correspondence k_implicit (implicit vs explicit embedded), k_greens, k_projector; partial",
                 text="C06_embedding_partial / C06_outputs_correspond_partial: any structure-preserving map between BlockAlgs intertwining the scopes maps solutions of the generated programs to solutions and (Hermitian mode) the three outputs correspond; with C16_direct (solver) and C17 (projector). Partial: the identification of the implicit block algebra with a corner algebra (unit diag(1,P)) is not formalised; KPM accuracy monitored only. Known finding C06-nh-implicit-fully-diagonalize (IndexError) replayed each run.",
                 note=BASE_NOTE + "SuperLU/MUMPS and KPM results compared numerically (1e-9*scale, 100*atol)."),
+    "C07": dict(cat="proof", tech="Coq: generic C01-C03 theorems + C08 (NOF homomorphism) + C16_scalar + C07_mask laws; decided on the implementation by the Fock-space oracle o_fock (operator-valued result vs truncated matrices); partial",
+                text="C07_mask_* (apply_mask_to_operator is an additive idempotent selection, keep/eliminate partition, commutes with adjoint and with functions of number operators), C08_* and C16_scalar on the NumberOrderedForm model, and the generic theorems C01/C02 for any BlockAlg. Partial: the BlockAlg instance over number-ordered forms and the band-locality argument (equality with TRUNCATED matrices away from the edge) are not formalised; that clause is decided by the oracle (Jordan-Wigner + Fock truncation, U†U=1 and U†HU=H_tilde on interior states).",
+                note=BASE_NOTE + "sympy simplification assumed to preserve denotations."),
+    "C08": dict(cat="proof", tech="Coq theorems on a hand model of NumberOrderedForm (Fock-space denotation with Jordan-Wigner signs) tied by correspondence k_nof (term dictionaries on occupation grids, vm_compute) + independent matrix oracle",
+                text="12 theorems, unbounded in occupation numbers, powers and number of modes: _multiply_op (all four branches incl. the fermionic sign counting), _multiply_expr, __mul__, +, -, adjoint (weighted inner product), integer powers denote the corresponding operators; associativity and distributivity as equalities of denotations. Not proved: (xy)† = y†x† as a theorem (oracle only), from_expr/as_expr round trip, negative powers.",
+                note=BASE_NOTE + "Preconditions sig_ok / wf_nof / bok in the statements (operator ordering, binary powers in {-1,0,1}, binary occupations) are preserved by every modelled operation; sympy xreplace/simplify assumed value-preserving."),
+    "C09": dict(cat="proof", tech="Coq theorems on hand models of the compiler (Compile.v) and evaluator (Exec.v) against the specification interpreter (Interp.v), tied by correspondence k_compile (generated code, canonical s-expressions) and k_seriescomp (values on generated programs) + independent Python interpreter as oracle",
+                text="C09_sound: for every program, value ring, scope, fuel, fault plan and request schedule, every value returned by the evaluator for ANY series name (deleted or not, either table) denotes the value of the direct interpretation, including deletion of once-used terms, Hermitian shortcuts (their validity is an explicit hypothesis herm_low/herm_diag of the world), flags and linear-operator mode; C09_main_regular / C09_nh_regular. Termination (Stratified.v) not proved: statements are for runs within fuel, non-vacuity by vm_compute examples.",
+                note=BASE_NOTE),
+    "C10": dict(cat="proof", tech="Coq corollaries of the evaluator soundness invariant + correspondence k_schedules (all permutations/repetitions of requests, shared inputs, read-only arrays)",
+                text="C10_history (any two schedules return the same value, the interpretation value), C10_inputs_untouched (compile never deletes an input; no request changes a Done input entry). Physical non-mutation of NumPy buffers is enforced by the harness (read-only flags, deep copies): partial for that clause.",
+                note=BASE_NOTE),
+    "C11": dict(cat="proof", tech="Coq theorems on the evaluator model with a fault plan (any callback index, any exception class, repeated faults) + exhaustive fault injection through the three public callbacks (k_faults)",
+                text="C11_exn_safe (after any schedule under any fault plan no Pending entry is left, later values equal the undisturbed ones), C11_no_pending_returned, C11_recursion.",
+                note=BASE_NOTE + "That a later request returns (termination) is covered by the harness only."),
+    "C12": dict(cat="proof", tech="Coq theorems (causal cone, once-only input evaluation, non-interference) for every program of the language + correspondence k_calllog (call logs of lazily defined Hamiltonians)",
+                text="C12_causal, C12_once, C12_noninterference for every program whose input names contain no '@'; C12_definition (only zeroth-order terms evaluated at definition time) is decided by the harness.",
+                note=BASE_NOTE),
     "C16": dict(cat="proof", tech="Coq theorems on hand models of the four solvers (stdlib / MathComp) tied by correspondence k_sylvdiag, k_greens, k_group, k_kpm, k_scalar",
                 text="C16_diagonal (+ antiherm, nodiv), C16_direct (+ pivots, regular, both orientations), C16_group, C16_kpm_contract (+ terminates, bound, small max_moments), C16_scalar: each built-in solver returns a solution of its equation where it is defined; external numerics modelled by contracts.",
                 note=BASE_NOTE + "scipy factorized/MUMPS, pivoted QR, eigsh, KDTree are contracts; invertibility of the pivot minors is a hypothesis checked exactly by the harness on every case; KPM convergence in floating point is outside the theorems."),
